@@ -43,9 +43,18 @@ var commonAssumptions = []string{"vfs.MemFS is a correct file system", "testkeys
 
 // dbCheck registers one DB-level model-based check.
 func dbCheck(t *testing.T, id string, prof Profile, rule string, quick, thorough int, nt func(res Result, labels []string) bool, finish func(r *Runner) error) {
+	dbCheckKnown(t, evid.Known[Plan]{}, id, prof, rule, quick, thorough, nt, finish)
+}
+
+// dbCheckKnown is dbCheck with a known-finding demonstration.
+func dbCheckKnown(t *testing.T, known evid.Known[Plan], id string, prof Profile, rule string, quick, thorough int, nt func(res Result, labels []string) bool, finish func(r *Runner) error) {
 	InBubble = true
+	var kn []evid.Known[Plan]
+	if known.Signature != "" {
+		kn = append(kn, known)
+	}
 	evid.Run(t, evid.Spec[Plan]{
-		ID: id, Level: "exploration", Bubble: true, Rule: rule, Assumptions: commonAssumptions,
+		ID: id, Level: "exploration", Bubble: true, Rule: rule, Assumptions: commonAssumptions, Known: kn,
 		Gen: func(t *rapid.T) Plan { return Generate(t, prof) },
 		Exec: func(p Plan) (evid.Outcome, error) {
 			res, err := RunPlan(p, finish)
@@ -430,17 +439,34 @@ var profCheckpoint = Profile{
 	// cannot be opened without pointing WALRecoveryDirs at the source's live WAL
 	// directory. Stores without a separate WALDir are checked.
 	Opt: func(t *rapid.T, o *OptPlan) { o.WALDir = false },
-	W: map[string]int{"write": 40, "batch": 12, "flush": 6, "compact": 3, "wait": 3, "restart": 1, "checkpoint": 10, "get": 3},
+	W: map[string]int{"write": 40, "batch": 12, "flush": 6, "compact": 3, "wait": 3, "restart": 1, "checkpoint": 10, "get": 3, "ingest": 3},
 	OpW: opWDefault,
 }
 
+// sigC38Ingest: same root cause as sigC11Ingest, seen through a checkpoint: the
+// checkpoint holds the LSM (with an ingestion that did not overlap the
+// memtable) plus the WAL contents that had reached the file; an earlier commit
+// that is only in the memtable (WAL disabled) or in the log writer's buffer is
+// missing although the later ingestion is present.
+const sigC38Ingest = "checkpoint-has-ingest-without-earlier-unflushed-write"
+
 func TestC38(t *testing.T) {
-	dbCheck(t, "C38", profCheckpoint,
-		"Sync/NoSync histories with Checkpoint at drawn points, with/without WithFlushedWAL and WithRestrictToSpans; each checkpoint is opened as its own DB and its full state (restricted to the spans, if any) must equal model[k] for some k in [durable, latest], where durable counts synced commits, flushes and (with WithFlushedWAL) everything before the call; the source keeps running and is compared with the model as in C01. "+
+	profCheckpoint := profCheckpoint
+	profCheckpoint.DurableIngest = evid.FindingActive("C38", sigC38Ingest)
+	nowal := baseOpt()
+	nowal.DisableWAL = true
+	InBubble = true
+	known := evid.Known[Plan]{Signature: sigC38Ingest, Plan: Plan{Profile: "checkpoint", Opt: nowal, Steps: []Step{
+		{K: "write", Ops: []Op{{K: "set", A: "a", V: "v1"}}},
+		{K: "ingest", Tables: [][]Op{{{K: "set", A: "c", V: "v2"}}}},
+		{K: "checkpoint"},
+	}}}
+	dbCheckKnown(t, known, "C38", profCheckpoint,
+		"Sync/NoSync histories with Checkpoint at drawn points, with/without WithFlushedWAL and WithRestrictToSpans; a third of the checkpoints have an ingestion and/or a batch committed from inside the Checkpoint call (at a drawn file creation/link in the destination directory, i.e. after Checkpoint released the DB locks); each checkpoint is opened as its own DB and its full state (restricted to the spans, if any) must equal model[k] for some k in [durable, latest], where durable counts synced commits, flushes and (with WithFlushedWAL) everything before the call; the source keeps running and is compared with the model as in C01. "+
 			"non-trivial = a checkpoint was taken while un-durable commits existed or with restricted spans; distinct = hash of plan JSON",
 		150, 1000,
 		func(res Result, ls []string) bool {
-			return res.C["checkpoints-with-undurable-tail"] > 0 || res.C["checkpoints-restricted"] > 0
+			return res.C["checkpoints-with-undurable-tail"] > 0 || res.C["checkpoints-restricted"] > 0 || res.C["checkpoints-with-commits-during"] > 0
 		}, nil)
 }
 
@@ -582,6 +608,12 @@ var profFiles = Profile{
 	Opt: func(t *rapid.T, o *OptPlan) {
 		o.FilesCheck = true
 		o.MemTableSize = rapid.SampledFrom([]int{4 << 10, 8 << 10}).Draw(t, "c39mem")
+		if rapid.Bool().Draw(t, "c39vs") {
+			// blob files that accumulate garbage and get rewritten while readers pin old versions
+			o.FMV = rapid.SampledFrom([]int{int(pebble.FormatValueSeparation), int(pebble.FormatV2BlobFiles), int(pebble.FormatNewest), int(pebble.FormatNewest)}).Draw(t, "c39fmv")
+			o.ValSep, o.ValSepMinSize, o.ValSepDepth = true, rapid.SampledFrom([]int{4, 10}).Draw(t, "c39vsmin"), rapid.IntRange(1, 3).Draw(t, "c39vsd")
+			o.ValSepGarbageLow = rapid.SampledFrom([]int{1, 5, 30}).Draw(t, "c39vsg")
+		}
 	},
 }
 
